@@ -435,6 +435,22 @@ func (f *Footer) hasDroppedChildren(ss *segmentStack) bool {
 	return false
 }
 
+// childFileRef returns the FileRef of the first persisted segment found
+// in the child footers (recursively), or nil.
+func (f *Footer) childFileRef() *FileRef {
+	for _, childFooter := range f.ChildFooters {
+		for _, sloc := range childFooter.SegmentLocs {
+			if sloc.mref != nil && sloc.mref.fref != nil {
+				return sloc.mref.fref
+			}
+		}
+		if fref := childFooter.childFileRef(); fref != nil {
+			return fref
+		}
+	}
+	return nil
+}
+
 // Length returns the length of this footer
 func (f *Footer) Length() uint64 {
 	jBuf, err := json.Marshal(f)
